@@ -11,11 +11,13 @@ git checkout -q -- . ; git clean -fdq tests 2>/dev/null
 echo "== apply"; git apply $OUT/patch.diff && git diff --stat
 echo "== build with patch"; cargo build --offline 2>&1 | tail -2
 echo "== suite with patch"
+rm -f $W/target/nextest/pb/junit.xml $CARGO_TARGET_DIR/nextest/pb/junit.xml
 cargo nextest run --workspace --no-fail-fast --tool-config-file pb:/w/lib/nextest.toml --profile pb --test-threads 8 --offline >/dev/null 2>&1
 python3 - <<PY
 import json,xml.etree.ElementTree as ET
 base=json.load(open('/root/.vp/BASELINE.json'))
-root=ET.parse('$CARGO_TARGET_DIR/nextest/pb/junit.xml').getroot()
+import os
+root=ET.parse('$W/target/nextest/pb/junit.xml' if os.path.exists('$W/target/nextest/pb/junit.xml') else '$CARGO_TARGET_DIR/nextest/pb/junit.xml').getroot()
 passed=set()
 for tc in root.iter('testcase'):
     tid=(tc.get('classname') or '')+'::'+(tc.get('name') or '')
@@ -29,6 +31,7 @@ echo "== demo WITH patch"; (cd $W && TRUTH_CORE=$TC bash $OUT/demo.sh $TC >/tmp/
 git checkout -q -- .
 echo "== build without patch"; cargo build --offline 2>&1 | tail -1
 echo "== demo WITHOUT patch"; (cd $W && TRUTH_CORE=$TC bash $OUT/demo.sh $TC >/tmp/seed-$ID/demo_without${V:+-$V}.log 2>&1; echo "exit=$?")
+rm -rf $W/target
 git status --short | grep -v snap.new
 } > $LOG 2>&1
 tail -12 $LOG
